@@ -174,6 +174,8 @@ def check(case):
                 kind = diagnose(ref, pt, {n: bad[n] for n in bad if n in ref.assigns}, atol)
                 if kind is None and any(re.search(r"(?<![A-Za-z_])abs\(", ln) for ln in c_lines(cmod.code, names)):
                     kind = "c-int-abs"
+                if kind is None and "Mod" not in ref.features() and any(re.search(r"(?<![\w.])\(?-?\d+\)?/\(?-?\d+\)?(?![\w.])", ln) for ln in c_lines(cmod.code, names)):
+                    kind = "c-integer-division"  # an integer-literal quotient is printed on the failing line
                 kind = kind or f"value-mismatch:{cm.main_feature(text, names)}"
                 add(kind, f"C rhs/monitor_values differ from the reference for {sorted(bad)[:3]}", inp, {n: want.get(n) for n in names}, bad,
                     "C lines: " + "; ".join(c_lines(cmod.code, names))[:500], base="value-mismatch" if kind.startswith("value-mismatch") else kind)
